@@ -159,6 +159,11 @@ class CTMCUniformGrid(CTMCGrid):
             )
         axis_left = np.linspace(start=l, stop=-h, num=nb_of_points_left)
         axis_right = np.linspace(start=h, stop=r, num=nb_of_points_right)
+        # a half-axis shorter than two steps: linspace would leave out the neighbour of the origin (or the bound)
+        if nb_of_points_left < 2:
+            axis_left = np.array([l, -h]) if l < -h else np.array([-h])
+        if nb_of_points_right < 2:
+            axis_right = np.array([h, r]) if r > h else np.array([h])
         axis = np.concatenate((axis_left, [0.0], axis_right))
         pivot_position = axis_left.size
         super().__init__(
